@@ -1187,6 +1187,15 @@ theorem eval_simL (hsub : SubStore es es') (hst : SortedStore es) (hst' : Sorted
           exact ⟨lookupKV_none_of_not_mem vs k (by rw [k1]; exact hnm), lookupKV_none_of_not_mem vs' k (by rw [k2]; exact hnm)⟩
         · exact vrelF_of_kvRel ps vs vs' f2 hndp _ _ (fun k w h => by rw [L1]; exact h) (fun k w h => by rw [L2]; exact h)
 
+/-- related results have the same policy outcome -/
+theorem outcome_of_relL {P : WPaths} {r r' : Result Value} (h : RelL es es' req P r r') : outcomeOf r' = outcomeOf r := by
+  cases r with
+  | error x => simp only [RelL] at h; subst h; rfl
+  | ok v =>
+    obtain ⟨v', e1, e2⟩ := h
+    subst e1
+    simp only [outcomeOf, vrel_asBool e2]
+
 end main
 
 end Cedar.Manifest
